@@ -2,7 +2,9 @@
 """C19: operator resolution.  spec/Resolution.tla holds both levels: level A = the property (first-order matching with one
 type per variable, output = substitution, no match -> resolution error, shared best rank -> ambiguity error, else the unique
 minimum-rank candidate; ranks are whatever the tree reports; and, independent of any rank formula, the selected candidate is
-never strictly more general - by pattern subsumption - than another matching candidate), level B = the implementation-shaped model (sequential matcher,
+never strictly more general - by pattern subsumption - than another matching candidate; an overload that needs a numeric
+conversion of a scalar value neither wins over nor ties with an otherwise identical one that takes the value exactly; a
+candidate whose parameters match the arguments is never reported as rejected), level B = the implementation-shaped model (sequential matcher,
 documented rank formula, stable sort + tie test).  MCResolution.tla enumerates families x argument tuples x registration
 orders, checks B against A's clauses and order independence exhaustively, and prints every scenario with B's predictions.
 Each scenario is replayed (all registration orders) into build/hgv_resolve, which registers run-time constructed overloads
@@ -359,16 +361,19 @@ def main():
         chk.sample({"scenario": sample_scns[k].splitlines()})
     chk.coverage["rule"] = (
         "Resolution.tla exhaustively: every family of %s x every argument tuple of that arity (%s) x every registration order "
-        "(+ mixed-arity families)%s; each (family, arguments) is replayed in all its registration orders (and every candidate "
+        "(+ mixed-arity families + focus groups: every family of 1..3 of {scalar parameter exact / converted / variable / promoted}, "
+        "of overloads that differ only in a concrete scalar parameter, of REF / SIGNAL patterns nested in TSD / TSL / TSB next to "
+        "their bare-variable and structural rivals, each x the argument tuples that separate them)%s; each (family, arguments) is replayed in all its registration orders (and every candidate "
         "alone) against the real OperatorRegistry; plus random families of 4-6 overloads from the whole pool in up to 12 orders "
         "(level A only); non-trivial = more than one overload and at least one of them matches; distinct = distinct "
         "(family, arguments)") % (
         ("1..3 overloads of one arity drawn from 14 arity-1 / 12 arity-2 candidates", "12 / 14 tuples", "") if quick else
-        ("1..3 overloads of one arity drawn from 24 arity-1 / 20 arity-2 candidates and of 1..2 drawn from all 34 / 28", "23 / 33 tuples",
+        ("1..3 overloads of one arity drawn from 24 arity-1 / 20 arity-2 candidates and of 1..2 drawn from all 40 / 34", "26 / 36 tuples",
          "; families of 1..4 from the quick pool in all 24 orders are model checked without replay"))
     chk.assumptions.append("overloads are run-time constructed OperatorImpl records (patterns built with TypePattern / ScalarPattern / "
                            "ParamPattern, rank from operator_dispatch_detail::operator_rank); no defaults, kwargs, variadic tails, "
-                           "requires predicates, size hints or requested output types; REF only at the top level of argument types")
+                           "requires predicates, size hints or requested output types; REF in argument types at the top level and as a TSD value / "
+                           "TSL element; scalar values int 7 / float 1.5 / str \"x\"")
     return chk.finish()
 
 
